@@ -23,7 +23,7 @@ rm -f $DEMO $DST/.tmp
 echo "--- existing tests with patch (guard off)" >> $DST/confirm.log
 timeout 3600 cargo test -p $PKG --offline --target-dir $TGT/p 2>&1 | grep -E "^test result|FAILED|failed" > $DST/.tmp
 cat $DST/.tmp | tail -40 >> $DST/confirm.log
-if grep -q "FAILED\|failed" $DST/.tmp; then TESTS_OK=false; else TESTS_OK=true; fi
+if grep -Eq "FAILED|[1-9][0-9]* failed" $DST/.tmp; then TESTS_OK=false; else TESTS_OK=true; fi
 NPASS=$(grep -c "test result: ok" $DST/.tmp)
 rm -f $DST/.tmp
 cp $SRC/patch.diff $DST/patch.diff; cp $SRC/demo.rs $DST/demo.rs
